@@ -38,6 +38,10 @@ econf_err readConfigHistoryWithCallback(econf_file ***key_files,
   if (delim == NULL)
     return ECONF_ERROR;
 
+  /* e.g. econf_readConfig() called with neither project nor config_name */
+  if (config_name == NULL)
+    return ECONF_ARGUMENT_IS_NULL_VALUE;
+
   if (config_name != NULL && strlen (config_name) != 0)
   {
     /* Reading main configuration file. */
